@@ -125,7 +125,7 @@ def read():
     for n in ast.walk(tree):
         if isinstance(n, ast.Call):
             f = ast.unparse(n.func)
-            if f in ("asyncio.sleep", "asyncio.wait_for", "asyncio.timeout", "asyncio.timeout_at") or f.endswith(".call_later") or f.endswith(".call_at") or f.startswith("time."):
+            if f in ("asyncio.sleep", "asyncio.wait_for", "asyncio.timeout", "asyncio.timeout_at", "asyncio.to_thread") or f.endswith(".run_in_executor") or f.endswith(".call_later") or f.endswith(".call_at") or f.startswith("time."):
                 timed.append(f + "(" + ", ".join(ast.unparse(a) for a in n.args) + ")")
             elif any(k.arg == "timeout" for k in n.keywords):
                 timed.append(f + "(timeout=...)")
